@@ -1124,8 +1124,9 @@ func scanLine(buf []byte, i int) (int, []byte) {
 			break
 		}
 
-		// skip past escaped characters
-		if buf[i] == '\\' && i+2 < len(buf) {
+		// skip past escaped characters; outside a quoted string a line feed ends the
+		// line even when a backslash precedes it
+		if buf[i] == '\\' && i+2 < len(buf) && (quoted || buf[i+1] != '\n') {
 			i += 2
 			continue
 		}
